@@ -59,6 +59,11 @@ def jobs(tier):
                             ('append-ra', (1, 2)), ('slice2d-scalar', slice(None), slice(0, 1))):
                     add('vector_write_job', 'vector-write[%s,%s,%s]' % (list(lv), form, '-'.join(str(x) for x in op_[:3] if not isinstance(x, slice))),
                         lengths=lv, op=op_, form=form)
+    # a NARROW element type before the write, int64 values written: whole-row assignment re-concatenates and therefore promotes
+    for lv in ((3, 2, 4), (2, 2)):
+        for dt_ in ('int16', 'int8'):
+            add('write_job', 'write[%s,%s array,row1 := int64 values]' % (list(lv), dt_), lengths=lv, op=('row', 1), dtype=dt_)
+            add('write_job', 'write[%s,%s array,row-otherlen := int64 values]' % (list(lv), dt_), lengths=lv, op=('row-otherlen', 0, lv[0] + 1), dtype=dt_)
     # arrays WITH EMPTY ROWS (first, interior, several in a row): flat indices of a later row must still map to that row
     for lv in ((2, 0, 1), (0, 2, 1), (1, 0, 0, 2)):
         n = len(lv)
